@@ -8,7 +8,9 @@ Sections == <<"lua", "gfx", "gff", "map", "sfx", "music">>
 SecSet == {"lua", "gfx", "gff", "map", "sfx", "music"}
 ArgKinds(s) == {"unspec", "p8", "png", "empty", "blank"} \cup (IF s = "lua" THEN {"luafile"} ELSE {})
 ErrKinds == {"both", "missing", "badext"}         \* --S and --empty-S; nonexistent source; wrong extension
-CONSTANT MaxSpec          \* at most this many sections named on the command line (6 = all configurations)
+CONSTANTS MaxSpec,        \* at most this many sections named on the command line (6 = all configurations)
+          MinSpec,        \* at least this many
+          NoErr           \* TRUE: only usable arguments
 VARIABLES args, out0, fmt
 vars == <<args, out0, fmt>>
 Init == /\ out0 \in {"absent", "existing"} /\ fmt \in {"p8", "png"}
@@ -16,6 +18,8 @@ Init == /\ out0 \in {"absent", "existing"} /\ fmt \in {"p8", "png"}
         /\ \A s \in SecSet : args[s] \in ArgKinds(s) \cup ErrKinds
         /\ Cardinality({s \in SecSet : args[s] \in ErrKinds}) <= 1
         /\ Cardinality({s \in SecSet : args[s] # "unspec"}) <= MaxSpec
+        /\ Cardinality({s \in SecSet : args[s] # "unspec"}) >= MinSpec
+        /\ (NoErr => \A s \in SecSet : args[s] \notin ErrKinds)
 Next == UNCHANGED vars
 Spec == Init /\ [][Next]_vars
 Fails == \E s \in SecSet : args[s] \in ErrKinds
